@@ -328,3 +328,20 @@ CHECKS["C16"]["text"] += " The sample pool contains the all-zero sample; a Gemm 
 CHECKS["C17"]["text"] += (" The callers of the odd Runs of the model with a defaulted input map that input's name to nil (not supplied): the default is "
                           "used alone and beside other Runs alike.")
 CHECKS["C18"]["text"] += " Graphs with 2..34 initializers of every malformed kind: the load returns with an error."
+
+# ---- round 14
+for _pid in ("C03", "C04", "C05", "C06", "C07", "C08", "C09", "C10", "C11"):
+    CHECKS[_pid]["text"] += (" Cases with a NaN operand are executed again with the NaN that processor arithmetic produces (sign bit set): a NaN is "
+                             "any NaN.")
+CHECKS["C01"]["text"] += " Programs hold several nodes whose FIRST output is omitted, of different operator types and attributes."
+CHECKS["C02"]["text"] += (" A model applies identity-like operators (Expand with nothing to stretch, Concat of one tensor) to weights and consumes "
+                          "the results inside the graph: the weights are the same weights in the next Run.")
+CHECKS["C05"]["text"] += " Extents that do not fit one byte (256, 257, 258, 300) beside their twins modulo 256."
+CHECKS["C12"]["text"] += " A raw-encoded tensor whose typed fields are present but empty decodes like one whose typed fields are absent."
+CHECKS["C13"]["text"] += (" Inputs may be declared with an element type the interpreter has no tensors for (FLOAT16, BFLOAT16, STRING, COMPLEX64) or "
+                          "another one than supplied: the signature is names, ranks and fixed dimensions.")
+CHECKS["C15"]["text"] += (" Every refused input list also arrives at the gate through Model.Run, at a node whose only output name is empty, beside "
+                          "a node that produces the graph output.")
+CHECKS["C17"]["text"] += (" One generated model holds tensors of a mebibyte (a raw Constant decoded in every Run, a lower-rank bias weight shared "
+                          "by all Runs): sizes at which a library may switch to another strategy.")
+CHECKS["C18"]["text"] += " Graphs with sparse initializer entries (complete, without values, without indices, empty) are loaded: the load returns."
